@@ -679,6 +679,8 @@ def cases(tier, seed):
         for s in range(3 if thorough else 1):
             qq = "X=Y" if sh[3] == sh[4] else "X!=Y"
             add("enlg.reps_unent", dict(shape=sh, seed=seed + 31 * j + s, reps=2), "enlg.reps/%s" % qq)
+            if j < 3:  # complex referee operators: the repeated table must keep their imaginary parts (F-09c)
+                add("enlg.reps_unent", dict(shape=sh, seed=seed + 31 * j + s, reps=2, complex=True), "enlg.reps/%s/complex" % qq)
     nseeds = 12 if thorough else 2
     for i, sh in enumerate(shapes):
         R, A, B, X, Y = sh
